@@ -46,6 +46,9 @@ type BrokerScript struct {
 	Order    []int     `json:"order"` // event order: 2*i = connect arrival i, 2*i+1 = send hello of arrival i; -1 = broker reply
 	Reply    string    `json:"reply"` // success | failure | none | garbage
 	Down     bool      `json:"down"`  // broker refuses the connection
+	// HangUp: having said "success" the broker closes its request socket at once (what a broker does whose handler
+	// simply returns); the reverse connection it arranged may still be on its way
+	HangUp bool `json:"hang_up,omitempty"`
 }
 
 type Case struct {
@@ -298,6 +301,9 @@ func (b *broker) serve(wg *sync.WaitGroup) {
 		switch {
 		case ev == -1:
 			reply()
+			if b.script.HangUp && b.script.Reply == "success" && b.proxy == "" {
+				_ = conn.Close()
+			}
 		case ev%2 == 0:
 			i := ev / 2
 			if i < len(conns) {
@@ -668,6 +674,7 @@ func genBroker(t *rapid.T) BrokerScript {
 	}
 	bs.Reply = rapid.SampledFrom([]string{"success", "success", "failure", "failure-bare", "failure-empty", "none", "garbage"}).Draw(t, "reply")
 	bs.Down = rapid.IntRange(0, 9).Draw(t, "down") == 0
+	bs.HangUp = rapid.IntRange(0, 2).Draw(t, "hangup") == 0
 	return bs
 }
 
@@ -729,7 +736,7 @@ func TestC20Permutations(t *testing.T) {
 						pos := n % (len(order) + 1)
 						order = append(order[:pos], append([]int{-1}, order[pos:]...)...)
 					}
-					cases = append(cases, Case{Brokers: []BrokerScript{{Arrivals: arr, Order: order, Reply: reply}}})
+					cases = append(cases, Case{Brokers: []BrokerScript{{Arrivals: arr, Order: order, Reply: reply, HangUp: reply == "success" && n%2 == 0}}})
 					classes = append(classes, "perm:"+rk)
 				}
 			}
